@@ -90,6 +90,7 @@ class Anchors:
     def __init__(self, facts):
         self.facts = facts
         self.retire_fns = {}        # body id -> param index of the retired pointer
+        self.retire_guard = {}      # body id -> param index of the guard used for the retirement
         self.free_fns = {}          # body id -> param index freed immediately
         self._find_retire()
         self._find_free()
@@ -104,9 +105,15 @@ class Anchors:
                     if len(c.args) < 2:
                         continue
                     l = op_root(c.args[1])
+                    g = op_root(c.args[0])
+                    gk = None
+                    for k in range(1, b.nargs + 1):
+                        if g is not None and fl.derives_from_arg(g, k):
+                            gk = k
                     for k in range(1, b.nargs + 1):
                         if l is not None and fl.derives_from_arg(l, k):
                             self.retire_fns[b.id] = k
+                            self.retire_guard[b.id] = gk
         if not self.retire_fns:
             raise AnchorError("no retire function found (nothing passes a parameter to seize defer_retire)")
 
@@ -145,6 +152,11 @@ class Anchors:
         if r in self.retire_fns:
             return self.retire_fns[r] - 1
         return None
+
+    def retire_guard_arg(self, c):
+        r = c.resolved
+        g = self.retire_guard.get(r)
+        return g - 1 if g else None
 
     def is_free(self, c):
         r = c.resolved
